@@ -10,7 +10,7 @@
 From Coq Require Import NArith List String Bool.
 From Coq Require Import Strings.Byte.
 From PDL Require Import Base.Bits Lang.Ast Lang.Sexp Analyzer.Schema Sem.RefEncode
-     Proofs.BitfieldEncode Proofs.StaticSize.
+     Proofs.BitfieldEncode Proofs.StaticSize Proofs.StaticSizeArrays Proofs.SchemaEnums.
 Import ListNotations.
 Open Scope N_scope.
 
@@ -34,3 +34,56 @@ Theorem C16_schema_sum_is_the_sum_of_widths_partial :
     dsz = SStatic (a + frag_bits fl fs) /\ psz = p.
 Proof. intros. eapply schema_fragment_bits; eassumption. Qed.
 Print Assumptions C16_schema_sum_is_the_sum_of_widths_partial.
+
+(** Beyond bit-fields (Proofs/StaticSizeArrays.v): field lists made of bit-fields, ARRAYS
+    with a static count (scalar, enum or struct elements), typedef fields of STRUCT type,
+    and arrays of any shape followed by `_padding_[n]` (counted at the declared padded
+    size).  Whenever the schema's sum is Static n, every reference encoding of every value
+    occupies exactly n bits.  [Hrec] is the induction hypothesis for struct types (the
+    recursive reference encoder of a struct whose total size the schema gives as Static m
+    produces m bits); it is discharged for a concrete file in [ex_every_value]. *)
+Theorem C16_static_size_is_exact_with_arrays_structs_and_padding :
+  forall (fl : file) (sch : schema) (rec : string -> value -> option (list seg)) (d : decl)
+         (all_fields : list field) (cs : list constr) (obj : list (string * value))
+         (payload : list seg),
+    schema_knows_enums fl sch ->
+    (forall tid v ss m, is_struct_id fl tid = true -> rec tid v = Some ss ->
+                        type_total sch tid = Some (SStatic m) -> 8 * seg_len ss = m) ->
+    forall (fs : list field) (n : N) (psz : size) (ss : list seg),
+      sa_fields fl d fs = true ->
+      annotate_fields sch d fs (SStatic 0) (SStatic 0) = Some (SStatic n, psz) ->
+      ref_enc_fields fl rec d all_fields cs obj payload fs 0 0 = Some ss ->
+      8 * seg_len ss = n.
+Proof. exact static_exact_arrays. Qed.
+Print Assumptions C16_static_size_is_exact_with_arrays_structs_and_padding.
+
+(** The PUBLIC QUERY on the REAL schema: for a file with distinct declaration identifiers
+    (what Scope::new's check E1 establishes) and the schema [mk_schema] computes, the total
+    size the schema reports for a root declaration of the bit-field fragment is Static n
+    only if every reference encoding of it has exactly n bits -- nothing is assumed about
+    the schema any more. *)
+Theorem C16_total_size_query_is_exact_on_the_real_schema :
+  forall (fl : file) (sch : schema) (id : string) (d : decl)
+         (rec : string -> value -> option (list seg)) (all_fields : list field)
+         (obj : list (string * value)) (payload : list seg) (n : N) (ss : list seg),
+    PDL.Analyzer.Passes.scope_new fl = [] ->
+    mk_schema fl = Some sch ->
+    lookup_decl fl id = Some d ->
+    root_of_fragment fl d ->
+    type_total sch id = Some (SStatic n) ->
+    ref_enc_fields fl rec d all_fields [] obj payload (decl_fields d) 0 0 = Some ss ->
+    8 * seg_len ss = n.
+Proof.
+  intros fl sch id d rec all_fields obj payload n ss Hscope.
+  apply static_total_exact_real_schema. apply Proofs.AnalyzerSound.scope_new_nodup. exact Hscope.
+Qed.
+Print Assumptions C16_total_size_query_is_exact_on_the_real_schema.
+
+(** a closed instance: every value of a packet with bit-fields, an enum, scalar / enum /
+    struct arrays, a padded array and a struct field encodes to exactly the 184 bits the
+    real schema reports *)
+Theorem C16_example_every_value :
+  forall obj ss,
+    ref_enc_fields ex_fl ex_rec ex_packet ex_fs [] obj [] ex_fs 0 0 = Some ss -> 8 * seg_len ss = 184.
+Proof. exact ex_every_value. Qed.
+Print Assumptions C16_example_every_value.
